@@ -73,6 +73,12 @@ func (o *objectGoMapSimple) setForeignStr(name unistring.String, val, receiver V
 	return o._setForeignStr(name, trueValIfPresent(o._hasStr(name.String())), val, receiver, throw)
 }
 
+// baseObject.setForeignIdx would take its "no index-named own property" fast path (idxPropCount is always 0 here:
+// the keys live in the Go map), so an own entry such as m["3"] would be skipped for an integer key.
+func (o *objectGoMapSimple) setForeignIdx(idx valueInt, val, receiver Value, throw bool) (bool, bool) {
+	return o.setForeignStr(idx.string(), val, receiver, throw)
+}
+
 func (o *objectGoMapSimple) _hasStr(name string) bool {
 	_, exists := o.data[name]
 	return exists
